@@ -78,6 +78,10 @@ def run_one(spec, scn):
         return [_viol_record(spec, scn, v) for v in vs], info, None
     except Exception:
         return [], {}, traceback.format_exc()
+    except KeyboardInterrupt as e:
+        if type(e).__name__ != 'SimInterrupt':
+            raise
+        return [], {}, traceback.format_exc()      # an injected interrupt that the family's driver did not expect
     finally:
         faulthandler.cancel_dump_traceback_later()
 
